@@ -33,7 +33,7 @@ SampleVerdict(e, s, o, masked) ==
       ELSE IF SumSeq(out.afp) > 1000 + nrec THEN "AfpSumAtMostOne"
       ELSE IF e.out.gperror # "" THEN (IF masked THEN "GpRefMaskedException" ELSE "GpException")
       ELSE IF out.gp = <<>> THEN "ok"                        \* GP not requested for this line
-      ELSE IF Len(out.gp) # r.gpLen
+      ELSE IF out.gp = <<-1>> \/ Len(out.gp) # r.gpLen           \* printed "." or wrong number of entries
            THEN (IF masked THEN "GpRefMaskedLength" ELSE "GpLength")
       ELSE IF ~(\A i \in 1..r.gpLen : Close(out.gp[i], gpAt(i - 1), e.m)) THEN "GpIsPosterior"
       ELSE IF SumSeq(out.gp) > 1000 + r.gpLen THEN "GpSumAtMostOne"
